@@ -188,6 +188,19 @@ theorem C10_stream_main (me : Bytes) (evs : List Ev) (hwf : ∀ e ∈ evs, evWF 
   | false => simp
   | true => simp [r2 he]
 
+/-- **What `holdsStream` means for the delivered bytes** (any observation, model or implementation):
+the concatenation of everything the `Read` calls returned is a prefix of the bytes written for this
+tunnel before its first close — unchanged and in order —, and once a `Read` has returned end-of-stream
+(or an error) it is ALL of them — complete. -/
+theorem C10_holds_meaning (me : Bytes) (evs : List Ev) (tail : Tail) (ps : List Nat) (o : StObs)
+    (h : holdsStream me evs tail ps o = true) :
+    o.writes = expectedWrites true evs ∧
+    delivered o.reads <+: (expected me evs).1 ∧
+    ((RRes.eof ∈ o.reads ∨ ∃ e, RRes.err e ∈ o.reads) → delivered o.reads = (expected me evs).1) := by
+  simp only [holdsStream, Bool.and_eq_true, beq_iff_eq] at h
+  obtain ⟨⟨⟨h1, h2⟩, -⟩, -⟩ := h
+  exact ⟨h1, checkReads_prefix _ _ _ _ _ h2⟩
+
 /-- The chunking function the driver uses is a chunking (so `C10_stream_main` covers every case line). -/
 theorem C10_chunkBy_flatten (ns : List Nat) (bs : Bytes) : (Drv.chunkBy ns bs).flatten = bs := by
   induction ns generalizing bs with
